@@ -38,6 +38,10 @@ type foldState struct {
 	failed map[string]bool // "file:calleeName:ordinal" that could not be inlined
 	rounds int
 	pruned bool
+	// noDefer: nothing else is left to fold, so new functions that were held back because their signature is that of
+	// a missing recorded function (a possible rename) and that the rename matcher still has not identified are
+	// folded like any other new helper
+	noDefer bool
 }
 
 // foldNewHelpers performs rounds of inlining on w and returns the overlay additions of this round (nil when
@@ -51,6 +55,25 @@ func (w *World) foldRound(overlay map[string][]byte, st *foldState) map[string][
 		return norm
 	}
 	out := map[string][]byte{}
+	// comparisons written constant-first are mirrored (yoda.go)
+	for _, p := range w.Pkgs {
+		if tab.Funcs[relOfPkg(p.Types)] == nil {
+			continue
+		}
+		for _, f := range p.Syntax {
+			fname := w.Fset.Position(f.Pos()).Filename
+			if strings.HasSuffix(fname, "_test.go") {
+				continue
+			}
+			if b, n := mirrorConstantFirst(w.Fset, p.TypesInfo, f); n > 0 {
+				out[fname] = b
+				foldNotes = append(foldNotes, fmt.Sprintf("comparisons: %d comparison(s) in %s with the constant on the left are read with it on the right", n, strings.TrimPrefix(fname, w.Repo+"/")))
+			}
+		}
+	}
+	if len(out) > 0 {
+		return out
+	}
 	// locals grouped in a struct and only used field by field are split into one variable per field (sroa.go)
 	for _, p := range w.Pkgs {
 		if tab.Funcs[relOfPkg(p.Types)] == nil {
@@ -210,7 +233,7 @@ func (w *World) foldRound(overlay map[string][]byte, st *foldState) map[string][
 			if _, known := rec[key]; known {
 				continue
 			}
-			if missingSig[recvNameOf(sig)+"|"+sigFingerprint(sig)] {
+			if missingSig[recvNameOf(sig)+"|"+sigFingerprint(sig)] && !st.noDefer {
 				continue
 			}
 			cand[fo] = true
@@ -385,6 +408,10 @@ func (w *World) foldRound(overlay map[string][]byte, st *foldState) map[string][
 				foldNotes = append(foldNotes, fmt.Sprintf("helper folding: the calls of the local closure %s in %s are replaced by its body", name, strings.TrimPrefix(fname, w.Repo+"/")))
 			}
 		}
+	}
+	if len(out) == 0 && !st.noDefer {
+		st.noDefer = true
+		return w.foldRound(overlay, st)
 	}
 	if len(out) == 0 {
 		// nothing left to inline: drop the declarations of helpers that are no longer called, so that the rules do
